@@ -100,7 +100,11 @@ def snapshot_mem(state, ordered=False):
 def err_of(exc):
     """PathIOError -> ['err', inner class name, errno-or-None]"""
     inner = exc.reason[1] if getattr(exc, "reason", None) else None
-    return ["err", type(inner).__name__, getattr(inner, "errno", None)]
+    errno = getattr(inner, "errno", None)
+    if errno is None and type(inner) is OSError:
+        # MemoryPathIO raises plain OSError(message): rmdir of a non-empty directory, rename into the own subtree
+        errno = {"Directory not empty": 39, "Invalid argument": 22}.get(str(inner))
+    return ["err", type(inner).__name__, errno]
 
 
 async def api_op(pio, root, op, ordered_list=False):
